@@ -95,3 +95,27 @@ def excursions(values):
 
 def total_variation(values):
     return sum(abs(values[i + 1] - values[i]) for i in range(len(values) - 1))
+
+
+def switched_with_tolerance(values, tol):
+    """Executable reading of the documented tolerance semantics of the switched peaks ("has to go tol past zero"):
+    walk the turning points; a half cycle that started at a peak of sign s ends only at the first later peak lying at
+    least tol on the other side of zero; each half cycle reports its turning point of largest |value| (first on ties).
+    Used ONLY to recognise the known finding C12/tol-split-excursion, never as the oracle of the property."""
+    tp = turning_points(values)[0]
+    pv = [values[i] for i in tp]
+    out = []
+    cur = [0]
+    last = pv[0]
+    for k in range(1, len(pv)):
+        s = (last > 0) - (last < 0)
+        if (pv[k] + tol * s) * last <= 0:
+            best = max(cur, key=lambda j: (abs(pv[j]), -j))
+            out.append(tp[best])
+            cur = []
+            last = pv[k]
+        cur.append(k)
+    if cur:
+        best = max(cur, key=lambda j: (abs(pv[j]), -j))
+        out.append(tp[best])
+    return out
